@@ -494,6 +494,8 @@ class Interp(object):
             c = self.class_attr(v, attr)
             return c if c is not None else Opaque('%s.%s' % (v.node.name, attr))
         if unknown(v):
+            if isinstance(v, External) and '%s.%s' % (v.key, attr) in EXTERNAL_CONSTANTS:
+                return EXTERNAL_CONSTANTS['%s.%s' % (v.key, attr)]
             return Opaque('%s.%s' % (key_of(v), attr)) if not isinstance(v, External) else External('%s.%s' % (v.key, attr))
         if isinstance(v, (list, dict, set, frozenset, tuple, str, bytes)):
             return ('__method__', v, attr)
@@ -1097,5 +1099,6 @@ BUILTINS = {'list': _list, 'set': _set, 'tuple': _tuple, 'dict': _dict, 'isinsta
             'True': True, 'False': False, 'None': None, 'object': Opaque('object'), 'RuntimeError': Opaque('RuntimeError'), 'ValueError': Opaque('ValueError'),
             'NotImplementedError': Opaque('NotImplementedError'), 'KeyError': Opaque('KeyError'), 'TypeError': Opaque('TypeError')}
 EXTERNAL_CALLS = {}
+EXTERNAL_CONSTANTS = {'numpy.inf': float('inf'), 'numpy.Inf': float('inf'), 'math.inf': float('inf'), 'numpy.pi': 3.141592653589793, 'math.pi': 3.141592653589793}
 ATTR_HOOKS = []      # (interp, value, attr, node, env) -> value or NotImplemented: attribute access on model objects of plug-in models
 STORE_HOOKS = []     # (interp, value, attr, new) -> True when the store was handled
